@@ -30,5 +30,11 @@ class KTable:
             #     return np.append(np.histogram(self.wavenumberGrid,wngrid, weights=orig)[0]/np.histogram(self.wavenumberGrid,wngrid)[0],0)
 
             # else:
-            f = interp1d(self.wavenumberGrid[wngrid_filter], orig, axis=0, copy=False, bounds_error=False,fill_value=(orig[0],orig[-1]),assume_sorted=True)
+            native = self.wavenumberGrid[wngrid_filter]
+            if native.shape[0] < 2:
+                # a single native point brackets the request (it starts at
+                # our last point or ends at our first): held at that value,
+                # as everywhere outside the native range
+                return np.repeat(orig[:1], wngrid.shape[0], axis=0)
+            f = interp1d(native, orig, axis=0, copy=False, bounds_error=False,fill_value=(orig[0],orig[-1]),assume_sorted=True)
             return f(wngrid).reshape(-1, len(self.weights))
